@@ -692,7 +692,7 @@ package fzf
 // that satisfy the query: nothing that fails the query is reported, every candidate that satisfies it is
 // reported, and (chunk scan) the number of results is the number of satisfying items, so none is reported twice.
 //@ func Pattern.matchChunk
-//@ property C01
+//@ property C01 C06
 //@ requires p != nil && chunk != nil && 0 <= chunk.count && chunk.count <= 100 && len(p.nth) == 0 && p.procFun != nil && (p.fuzzy ==> p.fuzzyAlgo != nil)
 //@ requires forall(k, 0, len(space), space[k].item != nil)
 //@ ensures forall(j, 0, len(result), result[j].item != nil && shown(p, result[j].item))
